@@ -2,5 +2,5 @@ CONSTANTS Seeds = {0, 255, 49}
           Alphabet = {1, 128, 255}
           MaxLen = 4
 SPECIFICATION Spec
-INVARIANTS Fast32Same Chunking8 Chunking16 Chunking32 Residue8 SameAsTableForm
+INVARIANTS Fast32Same SparseSame SparseWide Chunking8 Chunking16 Chunking32 Residue8 SameAsTableForm
 CHECK_DEADLOCK FALSE
